@@ -27,9 +27,15 @@ ASSUMPTIONS = ['exact arithmetic: all scalars/vectors/points are small integers 
                'and complex spaces are only probed']
 TRUSTED = ['C04/Model.v build/eval/eval_ip as a transcription of the overloads and _call bodies (tied by the '
            'structural + value correspondence on every run)',
+           'translate/op_tables.py (Python ast of the classes\' __init__ -> Gen/OpTables.v), fail-closed',
            'Python operator dispatch rule "reflected method of a proper subclass first" as modelled by subclass_radd']
 
 MAXMAG = 2 ** 40
+
+
+def translate():
+    from translate import op_tables
+    return {'Gen/OpTables.v': op_tables.translate()}
 
 
 # ------------------------------------------------------------------ the pool
